@@ -443,7 +443,7 @@ func (i *BigInt) DivideBigInt(other *BigInt) (Value, Value) {
 	if other.IsZero() {
 		return Undefined, Ref(NewZeroDivisionError())
 	}
-	result := ToElkBigInt((&big.Int{}).Div(i.ToGoBigInt(), other.ToGoBigInt()))
+	result := ToElkBigInt((&big.Int{}).Quo(i.ToGoBigInt(), other.ToGoBigInt()))
 	if result.IsSmallInt() {
 		return result.ToSmallInt().ToValue(), Undefined
 	}
@@ -461,7 +461,7 @@ func (i *BigInt) DivideSmallInt(other SmallInt) (Value, Value) {
 		return Undefined, Ref(NewZeroDivisionError())
 	}
 	oBigInt := big.NewInt(int64(other))
-	oBigInt.Div(i.ToGoBigInt(), oBigInt)
+	oBigInt.Quo(i.ToGoBigInt(), oBigInt)
 	result := ToElkBigInt(oBigInt)
 	if result.IsSmallInt() {
 		return result.ToSmallInt().ToValue(), Undefined
@@ -962,10 +962,12 @@ func (i *BigInt) StrictEqualVal(other Value) Value {
 
 func rightBitshiftBigInt[T SimpleInt](i *BigInt, other T) Value {
 	if other < 0 {
-		return SmallInt(0).ToValue()
+		if -other < 0 {
+			return SmallInt(0).ToValue()
+		}
+		return leftBitshiftBigInt(i, -other)
 	}
-	iGo := i.ToGoBigInt()
-	result := ToElkBigInt(iGo.Rsh(iGo, uint(other)))
+	result := ToElkBigInt((&big.Int{}).Rsh(i.ToGoBigInt(), uint(other)))
 	if result.IsSmallInt() {
 		return result.ToSmallInt().ToValue()
 	}
@@ -1089,15 +1091,16 @@ func (i *BigInt) RightBitshiftUInt8(other UInt8) Value {
 
 func leftBitshiftBigInt[T SimpleInt](i *BigInt, other T) Value {
 	if other < 0 {
-		return SmallInt(0).ToValue()
+		if -other < 0 {
+			return SmallInt(0).ToValue()
+		}
+		return rightBitshiftBigInt(i, -other)
 	}
-	iGo := i.ToGoBigInt()
-	return Ref(ToElkBigInt(iGo.Lsh(iGo, uint(other))))
+	return Ref(ToElkBigInt((&big.Int{}).Lsh(i.ToGoBigInt(), uint(other))))
 }
 
 func leftBitshiftBigIntUnsigned[T SimpleInt](i *BigInt, other T) *BigInt {
-	iGo := i.ToGoBigInt()
-	return ToElkBigInt(iGo.Lsh(iGo, uint(other)))
+	return ToElkBigInt((&big.Int{}).Lsh(i.ToGoBigInt(), uint(other)))
 }
 
 // Bitshift to the left by another integer value and return an error
@@ -1288,7 +1291,7 @@ func (i *BigInt) BitwiseAndNotInt(other Value) Value {
 
 func (i *BigInt) BitwiseAndNotSmallInt(other SmallInt) Value {
 	oBigInt := big.NewInt(int64(other))
-	oBigInt.And(i.ToGoBigInt(), oBigInt)
+	oBigInt.AndNot(i.ToGoBigInt(), oBigInt)
 	result := ToElkBigInt(oBigInt)
 	if result.IsSmallInt() {
 		return result.ToSmallInt().ToValue()
@@ -1297,7 +1300,7 @@ func (i *BigInt) BitwiseAndNotSmallInt(other SmallInt) Value {
 }
 
 func (i *BigInt) BitwiseAndNotBigInt(other *BigInt) Value {
-	result := ToElkBigInt((&big.Int{}).And(i.ToGoBigInt(), other.ToGoBigInt()))
+	result := ToElkBigInt((&big.Int{}).AndNot(i.ToGoBigInt(), other.ToGoBigInt()))
 	if result.IsSmallInt() {
 		return result.ToSmallInt().ToValue()
 	}
@@ -1419,6 +1422,15 @@ func (i *BigInt) Copy() Reference {
 }
 
 func (i *BigInt) ToValue() Value {
+	return Ref(i)
+}
+
+// Convert to a Value, values that fit in a SmallInt
+// get converted to a SmallInt.
+func (i *BigInt) ToNormalisedValue() Value {
+	if i.IsSmallInt() {
+		return i.ToSmallInt().ToValue()
+	}
 	return Ref(i)
 }
 
